@@ -905,7 +905,13 @@ impl ParsePartialResult {
         // depending on the state when we finished return Ok or Err enums
         match self.parse_state {
             SExpParseState::Empty => Ok(self.res),
-            SExpParseState::Bareword(l, t) => Ok(vec![Rc::new(make_atom(l, t))]),
+            SExpParseState::Bareword(l, t) => {
+                // A bareword running up to the end of input completes the
+                // forms read so far; it does not replace them.
+                let mut res = self.res;
+                res.push(Rc::new(make_atom(l, t)));
+                Ok(res)
+            }
             SExpParseState::CommentText => Ok(self.res),
             SExpParseState::QuotedText(l, _, _) => {
                 Err((l, "unterminated quoted string".to_string()))
